@@ -12,27 +12,27 @@ From Opcua Require Import Model.RecvBase Model.RecvCrypto Model.RecvMerge Model.
 Import ListNotations.
 
 (* the Receive loop over a stream of frames: every frame is read, a chunk that comes out is buffered / merged *)
-Fixpoint run_frames (un : bytes -> bool) (af : bytes -> bytes -> option algo) (mc ms : N)
+Fixpoint run_frames (un : bytes -> bool) (cc : bytes -> N) (af : bytes -> bytes -> option algo) (mc ms : N)
          (st : fstate) (t : ctable) (frames : list bytes) : list (res (option rout)) :=
   match frames with
   | [] => []
   | b :: r =>
-      let '(st', o) := read_frame un af true st b in
+      let '(st', o) := read_frame un cc af true st b in
       match o with
-      | Ok c => let '(t', out) := recv_step mc ms t c in Ok out :: run_frames un af mc ms st' t' r
-      | Err e => Err e :: run_frames un af mc ms st' t r
+      | Ok c => let '(t', out) := recv_step mc ms t c in Ok out :: run_frames un cc af mc ms st' t' r
+      | Err e => Err e :: run_frames un cc af mc ms st' t r
       | Panic p => [Panic p]
       end
   end.
 
 (* No panic: any stream of frames, any channel state (client or server; before, during, after the open; any mode; any
    instances with any algorithm functions, also instances without an algorithm), any certificate oracle. *)
-Theorem C13_no_panic : forall un af mc ms frames st t,
-  state_ok af st -> Forall (fun r => forall p, r <> Panic p) (run_frames un af mc ms st t frames).
+Theorem C13_no_panic : forall un cc af mc ms frames st t,
+  state_ok af st -> Forall (fun r => forall p, r <> Panic p) (run_frames un cc af mc ms st t frames).
 Proof.
-  intros un af mc ms frames. induction frames as [|b r IH]; intros st t Hok; [constructor|].
-  cbn [run_frames]. pose proof (read_frame_no_panic un af st b) as Hnp. pose proof (read_frame_state_ok un af st b Hok) as Hok'.
-  destruct (read_frame un af true st b) as [st' o]. cbn [fst snd] in *.
+  intros un cc af mc ms frames. induction frames as [|b r IH]; intros st t Hok; [constructor|].
+  cbn [run_frames]. pose proof (read_frame_no_panic un cc af st b) as Hnp. pose proof (read_frame_state_ok un cc af st b Hok) as Hok'.
+  destruct (read_frame un cc af true st b) as [st' o]. cbn [fst snd] in *.
   destruct o as [c|e|p].
   - destruct (recv_step mc ms t c) as [t' out]. constructor; [discriminate|]. now apply IH.
   - constructor; [discriminate|]. now apply IH.
@@ -40,12 +40,12 @@ Proof.
 Qed.
 
 (* Progress: every frame produces exactly one step (nothing is re-read, no loop depends on the peer's bytes). *)
-Theorem C13_progress : forall un af mc ms frames st t,
-  state_ok af st -> length (run_frames un af mc ms st t frames) = length frames.
+Theorem C13_progress : forall un cc af mc ms frames st t,
+  state_ok af st -> length (run_frames un cc af mc ms st t frames) = length frames.
 Proof.
-  intros un af mc ms frames. induction frames as [|b r IH]; intros st t Hok; [reflexivity|].
-  cbn [run_frames]. pose proof (read_frame_no_panic un af st b) as Hnp. pose proof (read_frame_state_ok un af st b Hok) as Hok'.
-  destruct (read_frame un af true st b) as [st' o]. cbn [fst snd] in *.
+  intros un cc af mc ms frames. induction frames as [|b r IH]; intros st t Hok; [reflexivity|].
+  cbn [run_frames]. pose proof (read_frame_no_panic un cc af st b) as Hnp. pose proof (read_frame_state_ok un cc af st b Hok) as Hok'.
+  destruct (read_frame un cc af true st b) as [st' o]. cbn [fst snd] in *.
   destruct o as [c|e|p].
   - destruct (recv_step mc ms t c) as [t' out]. cbn [length]. f_equal. now apply IH.
   - cbn [length]. f_equal. now apply IH.
@@ -94,14 +94,14 @@ Proof. intro H. apply (H {| d_handlers := [5]; d_opening := None |} (DMsg 5 true
 
 (* The defects that were repaired (fixed: see known_findings.txt): before the guards a short secured chunk (C09) and an
    OPN chunk under policy None on a secured channel whose opening instance has no algorithm yet panicked. *)
-Definition frame_no_panic_prefix : Prop := forall un af st b p,
-  state_ok af st -> snd (read_frame un af false st b) <> Panic p.
+Definition frame_no_panic_prefix : Prop := forall un cc af st b p,
+  state_ok af st -> snd (read_frame un cc af false st b) <> Panic p.
 Definition opn_none : bytes :=
   [79;80;78;70; 44;0;0;0; 7;0;0;0; 0;0;0;0; 255;255;255;255; 255;255;255;255; 1;0;0;0; 1;0;0;0; 0;0;0;0; 0;0;0;0; 0;0;0;0].
 Theorem C13_prefix_refuted : ~ frame_no_panic_prefix.
 Proof.
   intro H.
-  apply (H (fun u => match u with [] => true | _ => false end) (fun _ _ => None)
+  apply (H (fun u => match u with [] => true | _ => false end) (fun _ => 0%N) (fun _ _ => None)
            {| f_mode := SSign; f_pnone := false; f_opening := Some None; f_insts := []; f_cap := 65535; f_last := None |} opn_none P_NIL).
   - split; [cbn; lia|]. split; [intros c l a []|]. split; [intros oa [= <-]; exact I | discriminate].
   - vm_compute. reflexivity.
@@ -113,7 +113,7 @@ Definition ex_state : fstate :=
 Definition ex_short : bytes := [77;83;71;70; 20;0;0;0; 7;0;0;0; 2;0;0;0; 9;9;9;9].
 Example C13_nonvacuous :
   state_ok (fun _ _ => None) ex_state /\
-  run_frames (fun u => match u with [] => true | _ => false end) (fun _ _ => None) 4 1000 ex_state []
+  run_frames (fun u => match u with [] => true | _ => false end) (fun _ => 0%N) (fun _ _ => None) 4 1000 ex_state []
      [opn_none; ex_short; [77;83;71;70;8;0;0;0]] = [Err E_SEC; Err E_SEC; Err E_DECODE].
 Proof.
   split; [|vm_compute; reflexivity].
